@@ -209,6 +209,28 @@ property files; I merged after rebuilding and re-running the checks in `/verif`:
 | C05 | 25 | 89 | `mdist_axis` (root selection on the axis, all k, both directions), mirror / plane steps, `mtrace_jet`, `traceLens_merid`, `traceLens_jet` |
 | C06 | 3 | 22 | all seven closed forms: `ellipsoid_mirror_stigmatic(_rev)(_neg)`, `hyperboloid_mirror_stigmatic`, `hyperboloid_secondary_stigmatic`, `hyperbolic_surface_stigmatic`, `plano_hyperbolic_singlet`, `sphere_aplanatic`, `sphere_centre_opl` |
 | C07 | 16 | 101 | `traceLens_mirX/_mirY(_asph)`, `traceLens_scale(_wavelength)`, `dummy_surface_transparent` (list level), `selectRoot_advance` |
+
+### 11.10 Mechanisms added during the build (beyond the plan of section 9)
+
+* **Regression corpus** (`corpus/<P>/*.json`, `harness/main.py:run_corpus`): minimised failing cases recorded on seeded
+  changes; they run first in every check, independent of `VERIF_SEED`; a failing corpus case prints
+  `VIOLATION property=<P> replay=<corpus file>` and the run exits 1.  Built and validated by `tools/build_corpus.sh`
+  (accepted only if the replay alone fails on the changed tree and passes on `/repo`).  Their evidence goes to
+  `.scratch/evidence`; the main run's evidence records `regression_corpus: {{cases, failed}}`.
+* **Source-drift escalation** (`baseline/source_hashes.json`, `harness/core.py:source_drift`,
+  `harness/main.py:look_harder`): an AST-normalised hash of every module of `/repo/optiland` is recorded
+  (`tools/gen_source_baseline.py`, re-run after every commit to `/repo`).  When a check finds the package different
+  from the baseline, the quick tier is repeated with two further seeds (within about 150 s).  The difference is never
+  an alarm by itself; it only makes the search deeper exactly when the code has changed.  On the unchanged tree the
+  list is empty (`source_drift: []` in the evidence).
+* **leanchecker** in the thorough tier: `lake env leanchecker` re-checks the compiled declarations of the property's
+  modules independently of the elaborator (`checker_cmd` in the evidence shows its exit status).
+* **Replay fidelity**: every harness re-runs exactly the recorded case with `./check <P> --replay <file>`; C06 and C07
+  were repaired in this respect (configuration / work seed carried in the case), found when the corpus was built.
+* **Thorough tier** (`./check <P> --tier thorough`, 2–15 min each; all 20 run from a committed snapshot with `vp run`):
+  the first full run produced alarms on the unchanged tree in C02, C05, C07, C11, C12, C13, C14 — one genuine defect
+  (F-C11-5, repaired), one new finding (F22b), one artefact of editing `/repo` while the run was going (C13: the
+  magnification repair), and four classifier / domain mistakes of the harness (§11.5).
 '''
 open(D, 'w').write(head + new)
 print('DESIGN.md sections 11.3-11.9 regenerated: %d seeds (%d as built, %d after strengthening), %d corpus cases' % (
